@@ -170,6 +170,11 @@ SPEC = json.loads(r"""{spec}""")
 programs, schedule, serial = SPEC["programs"], SPEC["schedule"], SPEC["serial"]
 reg = be.registry
 reg.get(None, [np.zeros(1)])  # initialise lazily registered numpy backends
+_fresh = [0]
+def fresh_tensor():
+    """Every get() under test is a FIRST-USE lookup: a new ndarray subclass is a new tensor-type tuple."""
+    _fresh[0] += 1
+    return np.zeros(1).view(type("T%d" % _fresh[0], (np.ndarray,), {{}}))
 ids = {{0: reg.get("numpy"), 1: reg.get("numpy.numpylike"), 2: reg.get("numpy.einsum")}}
 extra = be.Backend(ops={{}}, name="verif-extra", priority=-9, optimizations=[], compiler=None, is_supported_tensor=lambda t: False, get_shape=None)
 def ident(b):
@@ -212,7 +217,7 @@ def run(t):
     for ci, call in enumerate(programs[t]):
         tls.ci = ci
         try:
-            if call[0] == "get": obs["%d.%d" % (t, ci)] = ["selected", ident(reg.get(None, [np.zeros(1)]))]
+            if call[0] == "get": obs["%d.%d" % (t, ci)] = ["selected", ident(reg.get(None, [fresh_tensor()]))]
             elif call[0] == "enter": reg.enter(ids[call[1]]); obs["%d.%d" % (t, ci)] = ["ok"]
             elif call[0] == "exit": reg.exit(ids[call[1]]); obs["%d.%d" % (t, ci)] = ["ok"]
             else: reg.register(extra); obs["%d.%d" % (t, ci)] = ["ok"]
